@@ -196,9 +196,50 @@ class Prop(core.Prop):
                                                                               len(tgt)), dim=dname, **scope))
             if not np.array_equal(np.asarray(g.variables['other'][...]), np.asarray(o[...])):
                 vs.append(viol('untouched-variable-changed', sig + (dname,), 'other changed', dim=dname, **scope))
+        if form == 'interpDimension':
+            vs.extend(self.nd_branch(xs, nxs, scope))
         return result('viol' if vs else 'ok-apply', vs, st, 3,
                       h64('a', src, tgt, form) if list(src) != list(tgt) else None,
                       h64('ok') if not vs else None)
+
+    def nd_branch(self, xs, nxs, scope):
+        """interpDimension with an N-D coordinate variable: per-column source and
+        target coordinates (columns share the source but differ in the target, and vice versa)"""
+        P = lib.pnc()
+        vs = []
+        n, m = xs.size, nxs.size
+        f = P.PseudoNetCDFFile()
+        f.createDimension('t', 2)
+        f.createDimension('z', n)
+        f.createDimension('x', 3)
+        zc = f.createVariable('zc', 'd', ('t', 'z', 'x'))
+        a = f.createVariable('A', 'd', ('t', 'z', 'x'))
+        src = np.zeros((2, n, 3))
+        tgt = np.zeros((2, m, 3))
+        for ti in range(2):
+            for xi in range(3):
+                src[ti, :, xi] = xs + (10. * xi if ti == 1 else 0.)     # t=0: all columns share the source
+                tgt[ti, :, xi] = np.clip(nxs + 0.25 * xi, xs.min(), xs.max()) + (10. * xi if ti == 1 else 0.)
+        zc[...] = src
+        a[...] = 2. * src + 1. + np.arange(3)[None, None, :]
+        g0 = P.PseudoNetCDFFile()
+        g0.createDimension('t', 2)
+        g0.createDimension('z', m)
+        g0.createDimension('x', 3)
+        nv = g0.createVariable('zc', 'd', ('t', 'z', 'x'))
+        nv[...] = tgt
+        try:
+            g = f.interpDimension('z', nv, coordkey='zc')
+            got = np.asarray(g.variables['A'][...], 'd')
+            want = 2. * tgt + 1. + np.arange(3)[None, None, :]
+            if got.shape != want.shape or relerr(got, want) > 1e-10:
+                vs.append(viol('interpolated-values', ('interpDimension', 'nd-coordinate'),
+                               'per-column coordinates src %s tgt %s: %s expected %s'
+                               % (xs, nxs, rfile._short(got), rfile._short(want)), dim='z-nd', **scope))
+        except Exception as e:
+            vs.append(viol('raises', ('interpDimension', 'nd-coordinate'), '%s: %r' % (type(e).__name__, e),
+                           exc=type(e).__name__, dim='z-nd', **scope))
+        return vs
 
     def run_sigma(self, case):
         from PseudoNetCDF.coordutil import sigma2coeff
@@ -249,6 +290,19 @@ class Prop(core.Prop):
                 vs.append(viol('constant-field', ('interpSigma', 'conserve'),
                                'from %s to %s: constant 3.25 -> %s' % (fr, to, np.asarray(g2.variables['O3'][...]).ravel()),
                                **scope))
+            # new model top: the same call repeated on the same object must give the same
+            # result and leave the source's vertical grid alone
+            f3 = ioapi_u.build(rec)
+            vg0 = np.array(f3.VGLVLS).copy()
+            r1 = np.asarray(f3.interpSigma(np.array(case['to'], 'f'), vgtop=4000., interptype='linear').variables['O3'][...], 'd')
+            r2 = np.asarray(f3.interpSigma(np.array(case['to'], 'f'), vgtop=4000., interptype='linear').variables['O3'][...], 'd')
+            ntrans += 2
+            if not np.array_equal(np.array(f3.VGLVLS), vg0):
+                vs.append(viol('source-grid-modified', ('interpSigma', 'vgtop'),
+                               'VGLVLS of the source changed %s -> %s' % (vg0, np.array(f3.VGLVLS)), **scope))
+            if not np.array_equal(r1, r2, equal_nan=True):
+                vs.append(viol('repeat-differs', ('interpSigma', 'vgtop'),
+                               'second identical call differs: %s vs %s' % (r1.ravel()[:4], r2.ravel()[:4]), **scope))
             if np.atleast_1d(g.VGLVLS).size != len(to) or len(g.dimensions['LAY']) != len(to) - 1:
                 vs.append(viol('levels', ('interpSigma', 'conserve'), 'VGLVLS %s LAY %d' % (
                     g.VGLVLS, len(g.dimensions['LAY'])), **scope))
